@@ -682,10 +682,15 @@ impl VirtualFileSystem for Memfs {
     /// ```
     fn all_dirs<T: AsRef<Path>>(&self, path: T) -> RvResult<Vec<PathBuf>> {
         let mut paths: Vec<PathBuf> = vec![];
-        if !self.is_dir(&path) {
-            return Err(PathError::is_not_dir(&path).into());
-        }
-        for entry in self.entries(path)?.min_depth(1).sort_by_name().dirs() {
+        // Check the directory and take the listing snapshot within a single critical section
+        let entries = {
+            let guard = self.read_guard();
+            if !self._is_dir(&guard, &path) {
+                return Err(PathError::is_not_dir(&path).into());
+            }
+            self._entries(&guard, path)?
+        };
+        for entry in entries.min_depth(1).sort_by_name().dirs() {
             let entry = entry?;
             paths.push(entry.path_buf());
         }
@@ -715,10 +720,15 @@ impl VirtualFileSystem for Memfs {
     /// ```
     fn all_files<T: AsRef<Path>>(&self, path: T) -> RvResult<Vec<PathBuf>> {
         let mut paths: Vec<PathBuf> = vec![];
-        if !self.is_dir(&path) {
-            return Err(PathError::is_not_dir(&path).into());
-        }
-        for entry in self.entries(path)?.min_depth(1).sort_by_name().files() {
+        // Check the directory and take the listing snapshot within a single critical section
+        let entries = {
+            let guard = self.read_guard();
+            if !self._is_dir(&guard, &path) {
+                return Err(PathError::is_not_dir(&path).into());
+            }
+            self._entries(&guard, path)?
+        };
+        for entry in entries.min_depth(1).sort_by_name().files() {
             let entry = entry?;
             paths.push(entry.path_buf());
         }
@@ -750,10 +760,15 @@ impl VirtualFileSystem for Memfs {
     /// ```
     fn all_paths<T: AsRef<Path>>(&self, path: T) -> RvResult<Vec<PathBuf>> {
         let mut paths: Vec<PathBuf> = vec![];
-        if !self.is_dir(&path) {
-            return Err(PathError::is_not_dir(&path).into());
-        }
-        for entry in self.entries(path)?.min_depth(1).sort_by_name() {
+        // Check the directory and take the listing snapshot within a single critical section
+        let entries = {
+            let guard = self.read_guard();
+            if !self._is_dir(&guard, &path) {
+                return Err(PathError::is_not_dir(&path).into());
+            }
+            self._entries(&guard, path)?
+        };
+        for entry in entries.min_depth(1).sort_by_name() {
             let entry = entry?;
             paths.push(entry.path_buf());
         }
@@ -1165,10 +1180,15 @@ impl VirtualFileSystem for Memfs {
     /// ```
     fn dirs<T: AsRef<Path>>(&self, path: T) -> RvResult<Vec<PathBuf>> {
         let mut paths: Vec<PathBuf> = vec![];
-        if !self.is_dir(&path) {
-            return Err(PathError::is_not_dir(&path).into());
-        }
-        for entry in self.entries(path)?.min_depth(1).max_depth(1).sort_by_name().dirs() {
+        // Check the directory and take the listing snapshot within a single critical section
+        let entries = {
+            let guard = self.read_guard();
+            if !self._is_dir(&guard, &path) {
+                return Err(PathError::is_not_dir(&path).into());
+            }
+            self._entries(&guard, path)?
+        };
+        for entry in entries.min_depth(1).max_depth(1).sort_by_name().dirs() {
             let entry = entry?;
             paths.push(entry.path_buf());
         }
@@ -1260,10 +1280,15 @@ impl VirtualFileSystem for Memfs {
     /// ```
     fn files<T: AsRef<Path>>(&self, path: T) -> RvResult<Vec<PathBuf>> {
         let mut paths: Vec<PathBuf> = vec![];
-        if !self.is_dir(&path) {
-            return Err(PathError::is_not_dir(&path).into());
-        }
-        for entry in self.entries(path)?.min_depth(1).max_depth(1).sort_by_name().files() {
+        // Check the directory and take the listing snapshot within a single critical section
+        let entries = {
+            let guard = self.read_guard();
+            if !self._is_dir(&guard, &path) {
+                return Err(PathError::is_not_dir(&path).into());
+            }
+            self._entries(&guard, path)?
+        };
+        for entry in entries.min_depth(1).max_depth(1).sort_by_name().files() {
             let entry = entry?;
             paths.push(entry.path_buf());
         }
@@ -1739,10 +1764,15 @@ impl VirtualFileSystem for Memfs {
     /// ```
     fn paths<T: AsRef<Path>>(&self, path: T) -> RvResult<Vec<PathBuf>> {
         let mut paths: Vec<PathBuf> = vec![];
-        if !self.is_dir(&path) {
-            return Err(PathError::is_not_dir(&path).into());
-        }
-        for entry in self.entries(path)?.min_depth(1).max_depth(1).sort_by_name() {
+        // Check the directory and take the listing snapshot within a single critical section
+        let entries = {
+            let guard = self.read_guard();
+            if !self._is_dir(&guard, &path) {
+                return Err(PathError::is_not_dir(&path).into());
+            }
+            self._entries(&guard, path)?
+        };
+        for entry in entries.min_depth(1).max_depth(1).sort_by_name() {
             let entry = entry?;
             paths.push(entry.path_buf());
         }
